@@ -113,6 +113,16 @@ type ALLOp<S, F, Item> = DefaultIfEmptyOp<
   bool,
 >;
 
+/// The time remaining until `at`; zero if `at` is not in the future.
+fn duration_until(at: Instant) -> Duration {
+  let now = Instant::now();
+  if at > now {
+    at - now
+  } else {
+    Duration::default()
+  }
+}
+
 pub trait Observable<Item, Err, O>
 where
   O: Observer<Item, Err>,
@@ -1230,7 +1240,7 @@ pub trait ObservableExt<Item, Err>: Sized {
   fn delay_at<SD>(self, at: Instant, scheduler: SD) -> DelayOp<Self, SD> {
     DelayOp {
       source: self,
-      delay: at.elapsed(),
+      delay: duration_until(at),
       scheduler,
     }
   }
@@ -1244,7 +1254,7 @@ pub trait ObservableExt<Item, Err>: Sized {
   ) -> DelayOpThreads<Self, SD> {
     DelayOpThreads {
       source: self,
-      delay: at.elapsed(),
+      delay: duration_until(at),
       scheduler,
     }
   }
@@ -1269,7 +1279,7 @@ pub trait ObservableExt<Item, Err>: Sized {
   ) -> DelaySubscriptionOp<Self, SD> {
     DelaySubscriptionOp {
       source: self,
-      delay: at.elapsed(),
+      delay: duration_until(at),
       scheduler,
     }
   }
